@@ -209,6 +209,7 @@ def run_property(prop, tier="quick", replay=None, extra_checks=None):
     errors = []
     notes = []
     n_cfg_applicable = 0
+    keep_alive = []
     for feats, dbg in configs_for(tier):
         key = extract.cfg_key(feats, dbg)
         if hasattr(mod, "applicable") and not mod.applicable(set(feats)):
@@ -224,23 +225,43 @@ def run_property(prop, tier="quick", replay=None, extra_checks=None):
             else:
                 notes.append("configuration %s does not compile (skipped)" % key)
             continue
-        fb = FactBase(path)
-        ctx = Ctx(fb, key, tier)
-        rep = Report(prop, key)
-        try:
+        def evaluate(presentation):
+            fb = FactBase(path, presentation)
+            keep_alive.append(fb)
+            ctx = Ctx(fb, key, tier)
+            rep = Report(prop, key)
             mod.check(ctx, rep)
+            # floors: fail closed when fewer instances than confirmed by reading are matched
+            floors = getattr(mod, "FLOORS", {})
+            if hasattr(mod, "floors_for"):
+                floors = mod.floors_for(set(feats))
+            for rule, n in floors.items():
+                got = rep.count(rule)
+                if got < n:
+                    rep.violation("floor", rule, "count", "rule %s matched %d instances, floor is %d (anchor missing / fail closed)" % (rule, got, n))
+            return fb, rep
+
+        # PRESENTATIONS.  A helper function that did not exist on the pinned tree can be shown to
+        # the rules spliced into its callers or as a function of its own; both are the same
+        # program, and an obligation discharged on either presentation is discharged.  The first
+        # presentation on which every obligation holds is taken; when none is, the report is the
+        # one of the default presentation.
+        try:
+            fb, rep = evaluate("spliced")
+            if any(o.status != "ok" for o in rep.obs) and (fb.spliced or fb.fresh_loopy):
+                for alt in (["loops"] if fb.fresh_loopy else []) + (["written"] if fb.spliced else []):
+                    try:
+                        fb2, rep2 = evaluate(alt)
+                    except Exception:
+                        continue
+                    if all(o.status == "ok" for o in rep2.obs):
+                        rep2.notes.append("configuration %s decided on presentation '%s' (new helper functions %s)" % (key, alt, "inlined including their loops" if alt == "loops" else "kept as written"))
+                        fb, rep = fb2, rep2
+                        break
         except Exception:
             errors.append("rule engine error in %s [%s]: %s" % (prop, key, traceback.format_exc()[-1500:]))
             continue
         n_cfg_applicable += 1
-        # floors: fail closed when fewer instances than confirmed by reading are matched
-        floors = getattr(mod, "FLOORS", {})
-        if hasattr(mod, "floors_for"):
-            floors = mod.floors_for(set(feats))
-        for rule, n in floors.items():
-            got = rep.count(rule)
-            if got < n:
-                rep.violation("floor", rule, "count", "rule %s matched %d instances, floor is %d (anchor missing / fail closed)" % (rule, got, n))
         cfg_infos.append(dict(info, cfg=key, obligations=len(rep.obs)))
         all_obs.extend(rep.obs)
         notes.extend(rep.notes)
